@@ -96,11 +96,24 @@ structure VariantDef where
   shape : VariantShape := .unit
   deriving Repr, Inhabited
 
+/-- the representations of an enum other than plain enum / union of records -/
+inductive EnumRepr
+  /-- `#[avro(repr = "bare_union")]` (with or without `#[serde(untagged)]`): a union of the payloads -/
+  | bareUnion
+  /-- `#[serde(tag = "..", content = "..")]`: a record of a tag enum and a content union -/
+  | tagContent (tag content : Bytes)
+  /-- `#[serde(tag = "..")]`: one record holding the tag and the fields of every variant -/
+  | internalTag (tag : Bytes)
+  deriving Repr, Inhabited
+
 inductive TypeDef
   /-- `name` = `[namespace.]rename-or-ident` (`NamedTypeOptions::name`) -/
   | struct (ident name : Bytes) (doc : Option Bytes) (aliases : List Bytes) (renameAll : RenameRule) (fields : List FieldDef)
   | enum (ident name : Bytes) (doc : Option Bytes) (aliases : List Bytes) (renameAll renameAllFields : RenameRule)
       (variants : List VariantDef)
+  /-- an enum in another representation than the default one (`EnumRepr`) -/
+  | enumRepr (repr : EnumRepr) (ident name : Bytes) (doc : Option Bytes) (aliases : List Bytes)
+      (renameAll renameAllFields : RenameRule) (variants : List VariantDef)
   /-- `#[serde(transparent)]` struct (the attribute excludes every other container attribute): the
   type stands for its one unskipped field -/
   | transparent (ident : Bytes) (fields : List FieldDef)
@@ -118,6 +131,7 @@ def TypeDef.ident : TypeDef → Bytes
   | .struct i _ _ _ _ _ => i
   | .enum i _ _ _ _ _ _ => i
   | .transparent i _ => i
+  | .enumRepr _ i _ _ _ _ _ _ => i
 
 abbrev DEnv := List TypeDef
 
@@ -166,6 +180,12 @@ abbrev DOut := Option (PSchema × List PName)
 
 /-- the result of `get_record_fields_in_ctxt`: `none` = a panic, `some (none, _)` = "not a record" -/
 abbrev DFields := Option (Option (List (FieldHdr × PSchema)) × List PName)
+
+/-- `RecordSchema::builder()…build()`: `calculate_lookup_table` asserts that the field names are distinct
+(`none` = that panic) -/
+def recordOf (pn : PName) (al : Option (List PName)) (doc : Option Bytes) (fs : List (FieldHdr × PSchema)) (attrs : Attrs)
+    (named : List PName) : DOut :=
+  if decide ((fs.map (fun f => f.1.name)).Nodup) then some (.record pn al doc fs attrs, named) else none
 
 /-- named fields → record fields (`named_fields_to_record_fields`); `goF` = the record fields of a
 flattened field's type, `dflt` = the field type's own default -/
@@ -224,11 +244,11 @@ def deriveVariantWith (go : List PName → Option Bytes → TyExpr → DOut)
          let attrs : Attrs :=
            if tys.length == 1 then [(b!"org.apache.avro.rust.tuple", .bool true), (b!"org.apache.avro.rust.union_of_records", .bool true)]
            else [(b!"org.apache.avro.rust.tuple", .bool true)]
-         some (.record pn none none fs attrs, named'))
+         recordOf pn none none fs attrs named')
     | .struct fields =>
       (match deriveFieldsWith go goF dflt (v.renameAll.or renameAllFields) fields named ns with
        | none => none
-       | some (fs, named') => some (.record pn none none fs [], named'))
+       | some (fs, named') => recordOf pn none none fs [] named')
 
 def deriveVariantsWith (go : List PName → Option Bytes → TyExpr → DOut)
     (goF : List PName → Option Bytes → TyExpr → DFields) (dflt : TyExpr → Option Json) (renameAll renameAllFields : RenameRule) :
@@ -242,6 +262,95 @@ def deriveVariantsWith (go : List PName → Option Bytes → TyExpr → DOut)
         match deriveVariantsWith go goF dflt renameAll renameAllFields rest named' ns with
         | none => none
         | some (ss, named'') => some (s :: ss, named'')
+
+/-- a variant with `transparent_newtype` and `unit_is_null` (bare unions, tag + content): a unit variant
+is `null`, a newtype variant is its payload's schema, the others are records as usual -/
+def deriveVariantBareWith (go : List PName → Option Bytes → TyExpr → DOut)
+    (goF : List PName → Option Bytes → TyExpr → DFields) (dflt : TyExpr → Option Json) (renameAll renameAllFields : RenameRule)
+    (v : VariantDef) (named : List PName) (ns : Option Bytes) : DOut :=
+  match v.shape with
+  | .unit => some (.null, named)
+  | .tuple [t] => go named ns t
+  | _ => deriveVariantWith go goF dflt renameAll renameAllFields v named ns
+
+def deriveVariantsBareWith (go : List PName → Option Bytes → TyExpr → DOut)
+    (goF : List PName → Option Bytes → TyExpr → DFields) (dflt : TyExpr → Option Json) (renameAll renameAllFields : RenameRule) :
+    List VariantDef → List PName → Option Bytes → Option (List PSchema × List PName)
+  | [], named, _ => some ([], named)
+  | v :: rest, named, ns =>
+    if v.skip then deriveVariantsBareWith go goF dflt renameAll renameAllFields rest named ns
+    else match deriveVariantBareWith go goF dflt renameAll renameAllFields v named ns with
+      | none => none
+      | some (s, named') =>
+        match deriveVariantsBareWith go goF dflt renameAll renameAllFields rest named' ns with
+        | none => none
+        | some (ss, named'') => some (s :: ss, named'')
+
+/-- is this the schema of an array / a map with scalar items (all the model compares for equality) -/
+def simpleCollectionEq : PSchema → PSchema → Option Bool
+  | .array a _, .array b _ => if a.baseKind == b.baseKind && a.pname?.isNone && b.pname?.isNone then some true else some false
+  | .map a _, .map b _ => if a.baseKind == b.baseKind && a.pname?.isNone && b.pname?.isNone then some true else some false
+  | _, _ => none
+
+/-- `UnionSchemaBuilder::variant_ignore_duplicates` for every schema in turn (`none` = the `expect` panics).
+A reference to a name that is already there is ignored; another schema under a name that is
+already there is an error (the model does not compare definitions: the derive never produces the
+same definition twice); a second array / map is ignored when it is the same collection of scalars
+and an error otherwise (collections of named types are not compared by the model: `none`);
+any other schema of a kind that is already there is silently ignored -/
+def unionIgnoreDup : List PSchema → List PName → List (BaseKind × PSchema) → List PSchema → Option (List PSchema)
+  | [], _, _, acc => some acc.reverse
+  | s :: rest, names, kinds, acc =>
+    match s.pname? with
+    | some n =>
+      if names.contains n then
+        (match s with
+         | .ref _ => unionIgnoreDup rest names kinds acc
+         | _ => none)
+      else unionIgnoreDup rest (n :: names) kinds (s :: acc)
+    | none =>
+      let k := s.baseKind
+      if k == .union then none
+      else match kinds.find? (fun e => e.1 == k) with
+        | some (_, old) =>
+          if k == .array || k == .map then
+            (match simpleCollectionEq old s with
+             | some true => unionIgnoreDup rest names kinds acc
+             | _ => none)
+          else unionIgnoreDup rest names kinds acc
+        | none => unionIgnoreDup rest names ((k, s) :: kinds) (s :: acc)
+
+/-- the two fields of an adjacently tagged enum's record -/
+def tagContentFields (tagName : PName) (tag content : Bytes) (symbols : List Bytes) (branches : List PSchema) :
+    List (FieldHdr × PSchema) :=
+  let hasNull := branches.any (fun b => match b with | .null => true | _ => false)
+  [ ({ name := tag, doc := none, aliases := [], default := none, attrs := [] }, .enum tagName none none symbols none []),
+    ({ name := content, doc := none, aliases := [], default := if hasNull then some .null else none, attrs := [] }, .union branches) ]
+
+/-- the fields the variants of an internally tagged enum contribute: a struct variant its fields, a
+newtype variant the record fields of its payload type (a panic when it has none), a unit variant nothing -/
+def internalTagFieldsWith (go : List PName → Option Bytes → TyExpr → DOut)
+    (goF : List PName → Option Bytes → TyExpr → DFields) (dflt : TyExpr → Option Json) (renameAllFields : RenameRule) :
+    List VariantDef → List PName → Option Bytes → Option (List (FieldHdr × PSchema) × List PName)
+  | [], named, _ => some ([], named)
+  | v :: rest, named, ns =>
+    if v.skip then internalTagFieldsWith go goF dflt renameAllFields rest named ns
+    else
+      let mine : Option (List (FieldHdr × PSchema) × List PName) :=
+        match v.shape with
+        | .unit => some ([], named)
+        | .struct fields => deriveFieldsWith go goF dflt (v.renameAll.or renameAllFields) fields named ns
+        | .tuple [t] => (match goF named ns t with | some (some fs, named') => some (fs, named') | _ => none)
+        | .tuple _ => none
+      match mine with
+      | none => none
+      | some (fs, named') =>
+        match internalTagFieldsWith go goF dflt renameAllFields rest named' ns with
+        | none => none
+        | some (more, named'') => some (fs ++ more, named'')
+
+def tagStringField (tag : Bytes) : FieldHdr × PSchema :=
+  ({ name := tag, doc := none, aliases := [], default := none, attrs := [] }, .string)
 
 mutual
 /-- `<T as AvroSchemaComponent>::get_schema_in_ctxt(named_schemas, enclosing_namespace)` -/
@@ -277,6 +386,40 @@ def deriveTy (env : DEnv) : Nat → List PName → Option Bytes → TyExpr → D
         (match transparentField fields with
          | some f => go named ns f.ty
          | none => none)
+      | some (.enumRepr repr _ name doc aliases renameAll renameAllFields variants) =>
+        (match PName.make name ns with
+         | none => none
+         | some pn =>
+           match repr with
+           | .bareUnion =>
+             -- not a named type: built on every use, inside the namespace of the enum's name
+             (match deriveVariantsBareWith go goF dflt renameAll renameAllFields variants named pn.ns with
+              | none => none
+              | some (ss, named') =>
+                match unionNew ss [] [] with
+                | some _ => some (.union ss, named')
+                | none => none)
+           | .tagContent tag content =>
+             if named.contains pn then some (.ref pn, named)
+             else match deriveAliases aliases with
+               | none => none
+               | some al =>
+                 match deriveVariantsBareWith go goF dflt renameAll renameAllFields variants (pn :: named) pn.ns with
+                 | none => none
+                 | some (ss, named') =>
+                   match unionIgnoreDup ss [] [] [], PName.make tag pn.ns with
+                   | some branches, some tagName =>
+                     let symbols := (variants.filter (fun v => !v.skip)).map (fun v => variantName v renameAll)
+                     recordOf pn al doc (tagContentFields tagName tag content symbols branches) [] named'
+                   | _, _ => none
+           | .internalTag tag =>
+             if named.contains pn then some (.ref pn, named)
+             else match deriveAliases aliases with
+               | none => none
+               | some al =>
+                 match internalTagFieldsWith go goF dflt renameAllFields variants (pn :: named) pn.ns with
+                 | none => none
+                 | some (fs, named') => recordOf pn al doc (tagStringField tag :: fs) [] named')
       | some (.struct _ name doc aliases renameAll fields) =>
         (match PName.make name ns with
          | none => none
@@ -287,7 +430,7 @@ def deriveTy (env : DEnv) : Nat → List PName → Option Bytes → TyExpr → D
              | some al =>
                match deriveFieldsWith go goF dflt renameAll fields (pn :: named) pn.ns with
                | none => none
-               | some (fs, named') => some (.record pn al doc fs [], named'))
+               | some (fs, named') => recordOf pn al doc fs [] named')
       | some (.enum _ name doc aliases renameAll renameAllFields variants) =>
         if plainLike variants then
           -- a plain enum
@@ -330,7 +473,23 @@ def deriveRec (env : DEnv) : Nat → List PName → Option Bytes → TyExpr → 
          (match deriveFieldsWith (deriveTy env fuel) (deriveRec env fuel) (typeFieldDefault env fuel) renameAll fields named ns with
           | none => none
           | some (fs, named') => some (some fs, named'))
-       | some (.enum _ _ _ _ _ _ _) => some (none, named))
+       | some (.enum _ _ _ _ _ _ _) => some (none, named)
+       | some (.enumRepr repr _ _ _ _ renameAll renameAllFields variants) =>
+         (match repr with
+          | .bareUnion => some (none, named)
+          | .tagContent tag content =>
+            (match deriveVariantsBareWith (deriveTy env fuel) (deriveRec env fuel) (typeFieldDefault env fuel) renameAll renameAllFields variants named ns with
+             | none => none
+             | some (ss, named') =>
+               match unionIgnoreDup ss [] [] [], PName.make tag ns with
+               | some branches, some tagName =>
+                 let symbols := (variants.filter (fun v => !v.skip)).map (fun v => variantName v renameAll)
+                 some (some (tagContentFields tagName tag content symbols branches), named')
+               | _, _ => none)
+          | .internalTag tag =>
+            (match internalTagFieldsWith (deriveTy env fuel) (deriveRec env fuel) (typeFieldDefault env fuel) renameAllFields variants named ns with
+             | none => none
+             | some (fs, named') => some (some (tagStringField tag :: fs), named'))))
     | _ => some (none, named)
 end
 
